@@ -41,6 +41,12 @@ def shards(tier):
         for a in [(1, 0, 0), (1, 1, 1), (2, 1, 2)]:
             for b in [(1, 0, 0), (1, 1, 2), (2, 1, 0)]:
                 out.append({"rec": [list(a), list(b), [2, 1, 0]], "mclass": "gen"})
+    # the undeliverable message is one the manager originates itself (CLIENT_INFO): reporting it nests further manager messages
+    from pyrtma import core_defs as cd
+    ci = str(cd.MT_CLIENT_INFO)
+    for a in ([1, 1, 1], [1, 1, 2], [1, 0, 0], [2, 1, 1]):
+        for b in ([2, 1, 0],) if tier == "quick" else ([2, 1, 0], [1, 1, 0], [0, 1, 0]):
+            out.append({"rec": [a, b], "mclass": ci, "origin": "mgr"})
     return out
 
 
